@@ -8,7 +8,7 @@
 (* post-state with the step operators and names every clause that fails.   *)
 (* Verdicts are total: one <<"V", {id, failed, detail}>> line per case.     *)
 (***************************************************************************)
-EXTENDS Criteria, Disparity, Refinement, Validation, Filter, Json, IOUtils, TLC
+EXTENDS Criteria, Disparity, Refinement, Validation, Filter, Interpolation, Aggregation, Json, IOUtils, TLC
 
 Cases == ndJsonDeserialize(IOEnv.TRACE_FILE)
 
@@ -199,7 +199,52 @@ RegVerdict(e) ==
                   \cup (IF ~e.frame_other THEN {"other_data_unchanged"} ELSE {}),
        detail |-> IF wf # {} THEN one(wf) ELSE IF badbits # {} THEN one(badbits) ELSE IF notreg # {} THEN one(notreg) ELSE one(widen)]
 
+\* ------------------------------------------------------------------ occlusion / mismatch filling (C14)
+\* e: pass, rows, cols, before: [d, vm], after: [d, vm]   (d scaled by 8; NaN sentinel for NaN)
+FillPixelFail(e, x) ==
+   LET r == x[1]  c == x[2]  b == e.before  a == e.after
+       got == <<a.d[r][c], a.vm[r][c]>>
+       flagged == Has(b, r, c, 8) \/ Has(b, r, c, 9)
+       rng == ValidRange(e, b)
+   IN (IF ~flagged /\ got # <<b.d[r][c], b.vm[r][c]>> THEN {"only_flagged_pixels_change"} ELSE {})
+      \cup (IF flagged /\ ~(got \in Expected(e, b, r, c)) THEN {"fill_value_and_flags"} ELSE {})
+      \* statement-level clauses on what the code did
+      \cup (IF flagged /\ got[2] # b.vm[r][c] /\ ({4, 5} \cap (Bits(got[2]) \ Bits(b.vm[r][c])) # {})
+               /\ ~(got[1] # NaN /\ rng # {} /\ got[1] >= MinVal([d |-> b.d], {y \in (1..e.rows) \X (1..e.cols) : IsValidPx(b, y[1], y[2])})
+                                     /\ got[1] <= MaxVal([d |-> b.d], {y \in (1..e.rows) \X (1..e.cols) : IsValidPx(b, y[1], y[2])}))
+            THEN {"filled_is_finite_and_enclosed"} ELSE {})
+FillVerdict(e) ==
+   LET fails == [x \in Pix(e) |-> FillPixelFail(e, x)]
+       bad == {x \in Pix(e) : fails[x] # {}}
+   IN [failed |-> UNION {fails[x] : x \in Pix(e)},
+       detail |-> IF bad = {} THEN <<>>
+                  ELSE LET x == CHOOSE y \in bad : TRUE
+                       IN <<x[1], x[2], e.before.d[x[1]][x[2]], e.before.vm[x[1]][x[2]], e.after.d[x[1]][x[2]], e.after.vm[x[1]][x[2]],
+                            Expected(e, e.before, x[1], x[2])>>]
+
+\* ------------------------------------------------------------------ cbca aggregation (C11) ----------
+\* e.out[r][c][k] = <<n, d>> rational (or <<NaN, 1>>)
+AggCellFail(e, x) ==
+   LET r == x[1][1]  c == x[1][2]  k == x[2]  D == e.first + k - 1
+       got == e.out[r][c][k]
+   IN IF e.cv[r][c][k] = NaN THEN (IF got[1] # NaN THEN {"nan_stays_nan"} ELSE {})
+      ELSE IF got[1] = NaN THEN {"no_new_nan"}
+      ELSE IF ~(IsNum(got) /\ got[2] > 0 /\ HasCorr(e, c, D) /\ InCrop(e, <<"L", 0>>, r, c)
+                /\ RatEq(got, <<AggSum(e, r, c, D, k), AggCount(e, r, c, D)>>)) THEN {"support_region_average"} ELSE {}
+AggVerdict(e) ==
+   LET cells == Pix(e) \X (1..Len(e.cv[1][1]))
+       bad == {x \in cells : AggCellFail(e, x) # {}}
+   IN [failed |-> UNION {AggCellFail(e, x) : x \in cells},
+       detail |-> IF bad = {} THEN <<>>
+                  ELSE LET x == CHOOSE y \in bad : TRUE
+                       IN <<x[1][1], x[1][2], x[2], e.cv[x[1][1]][x[1][2]][x[2]], e.out[x[1][1]][x[1][2]][x[2]],
+                            IF e.cv[x[1][1]][x[1][2]][x[2]] # NaN /\ InCrop(e, <<"L", 0>>, x[1][1], x[1][2])
+                            THEN <<AggSum(e, x[1][1], x[1][2], e.first + x[2] - 1, x[2]), AggCount(e, x[1][1], x[1][2], e.first + x[2] - 1)>>
+                            ELSE <<>>>>]
+
 Verdict(e) == CASE e.step = "matching_cost" -> McVerdict(e)
+                [] e.step = "aggregation" -> AggVerdict(e)
+                [] e.step = "fill" -> FillVerdict(e)
                 [] e.step = "regularize" -> RegVerdict(e)
                 [] e.step = "filter" -> FiltVerdict(e)
                 [] e.step = "cross_check" -> XcVerdict(e)
